@@ -62,7 +62,7 @@ size_t svalue_save_size (const svalue_t * v) {
 
         while ((c = *cp++))
           {
-            if (c == '\\' || c == '"') /* need to escape these characters */
+            if (c == '\\' || c == '"' || c == '\r') /* need to escape these characters */
               size++;
             size++;
           }
@@ -160,8 +160,9 @@ void save_svalue (svalue_t * v, char **buf) {
         *cp++ = '"';
         while ((c = *str++))
           {
-            if (c == '"' || c == '\\')
+            if (c == '"' || c == '\\' || c == '\r')
               {
+                /* an unescaped \r in a save file stands for \n: a real \r must be escaped */
                 *cp++ = '\\';
                 *cp++ = c;
               }
